@@ -37,6 +37,7 @@ type Result struct {
 	Sites       map[int]int
 	Probes      map[string]int
 	Blocked     int
+	Poisoned    bool // a task is stuck outside the scheduler (hang or busy loop in the code under test): the process must not run anything else
 	Trace       []string // human-readable account of the run (only when Opts.Trace)
 	Sample      interface{}
 }
